@@ -24,7 +24,8 @@ EXTENDS MultiDef, Json
 CONSTANTS HInsts,      \* set of operator instances [op, g]
           MaxInner,    \* inner sources (<= 2)
           MaxSteps, MaxPerSrc,
-          Cuts         \* BOOLEAN: also enumerate an Unsubscribe at every position
+          Cuts,        \* BOOLEAN: also enumerate an Unsubscribe at every position
+          Tails        \* downstream stages placed after the operator: "none", "Take1", "Throw1" (MultiDef!TailCut)
 
 Mark(s, j) == IF s = 1 THEN <<"i10", "i11", "i12", "i13">>[j + 1] ELSE IF s = 2 THEN <<"i20", "i21", "i22", "i23">>[j + 1] ELSE <<"i30", "i31", "i32", "i33">>[j + 1]
 TMark(s) == <<"t", "t2", "t3">>[s]
@@ -32,7 +33,7 @@ TMark(s) == <<"t", "t2", "t3">>[s]
 Inner == 1..MaxInner
 Src(j) == j + 1           \* source index of inner j
 
-VARIABLES m,
+VARIABLES m, tail,
           phase, closed, unsub, log, h, sent,
           ost,        \* outer source: "live" | "ended" (by itself) | "torn" (released by the operator)
           octx,       \* context of the outer completion (MergeAll completes with it)
@@ -42,7 +43,7 @@ VARIABLES m,
           last, q,    \* CombineLatestAll / ZipAll: latest value / queue per inner
           blk         \* 0, or the inner source whose introducing outer notification is still in flight (ConcatAll / FlatMap)
 
-vars == <<m, phase, closed, unsub, log, h, sent, ost, octx, intro, ist, nsub, last, q, blk>>
+vars == <<m, tail, phase, closed, unsub, log, h, sent, ost, octx, intro, ist, nsub, last, q, blk>>
 
 Concat == m.op = "ConcatAll"
 Collecting == m.op \in {"CombineLatestAll", "ZipAll"}
@@ -56,7 +57,7 @@ Obs(d, cl, o2, i2, n2, b2) ==
    blk |-> IF b2 = 0 THEN 0 ELSE 1]
 
 Init ==
-  /\ m \in HInsts
+  /\ m \in HInsts /\ tail \in Tails
   /\ phase = "new" /\ closed = FALSE /\ unsub = FALSE /\ log = <<>> /\ h = <<>>
   /\ sent = [s \in 1..3 |-> 0]
   /\ ost = "live" /\ octx = SubCtx /\ intro = 0
@@ -67,7 +68,7 @@ Init ==
 Subscribe ==
   /\ phase = "new" /\ phase' = "run"
   /\ h' = Append(h, [do |-> "sub", src |-> 0, n |-> C({}), exp |-> Obs(<<>>, FALSE, ost, ist, nsub, 0)])
-  /\ UNCHANGED <<m, closed, unsub, log, sent, ost, octx, intro, ist, nsub, last, q, blk>>
+  /\ UNCHANGED <<m, tail, closed, unsub, log, sent, ost, octx, intro, ist, nsub, last, q, blk>>
 
 \* the output terminates (or the subscriber leaves): everything still subscribed is released, a blocked outer notification returns
 Release(o2, i2) == [o |-> IF o2 = "live" THEN "torn" ELSE o2, i |-> [j \in Inner |-> IF i2[j] = "live" THEN "torn" ELSE i2[j]]]
@@ -122,16 +123,17 @@ InnerStep(j, n) ==
            ELSE Eff(ost, i1, nsub, last, q, b1, IF q[j] = <<>> THEN <<C(n.c)>> ELSE <<>>, octx, intro)
 
 Apply(s, n, r) ==
-  LET term == HasTerminal(r.out)
+  LET tc == TailCut(tail, r.out)
+      term == HasTerminal(tc.out)
       rel == IF term THEN Release(r.o, r.i) ELSE [o |-> r.o, i |-> r.i]
       b2 == IF term THEN 0 ELSE r.b
       cl2 == closed \/ term
   IN /\ ost' = rel.o /\ ist' = rel.i /\ nsub' = r.n /\ last' = r.last /\ q' = r.q /\ blk' = b2 /\ octx' = r.octx /\ intro' = r.intro
      /\ closed' = cl2
-     /\ log' = log \o r.out
-     /\ h' = Append(h, [do |-> "push", src |-> s, n |-> n, exp |-> Obs(r.out, cl2, rel.o, rel.i, r.n, b2)])
+     /\ log' = log \o tc.out
+     /\ h' = Append(h, [do |-> "push", src |-> s, n |-> n, exp |-> Obs(tc.out, cl2, rel.o, rel.i, r.n, b2)])
      /\ sent' = [sent EXCEPT ![s] = @ + 1]
-     /\ UNCHANGED <<m, phase, unsub>>
+     /\ UNCHANGED <<m, tail, phase, unsub>>
 
 PushOuter(n) ==
   /\ phase = "run" /\ Len(h) <= MaxSteps /\ ost # "ended" /\ sent[1] < MaxPerSrc
@@ -149,7 +151,7 @@ Unsub ==
      /\ ost' = rel.o /\ ist' = rel.i /\ blk' = 0
      /\ h' = Append(h, [do |-> "unsub", src |-> 0, n |-> C({}), exp |-> Obs(<<>>, TRUE, rel.o, rel.i, nsub, 0)])
   /\ unsub' = TRUE /\ closed' = TRUE
-  /\ UNCHANGED <<m, phase, log, sent, octx, intro, nsub, last, q>>
+  /\ UNCHANGED <<m, tail, phase, log, sent, octx, intro, nsub, last, q>>
 
 ONotifs == {N(intro + 1, SubCtx \cup {Mark(1, sent[1])}), E(1, SubCtx \cup {TMark(1)}), C(SubCtx \cup {TMark(1)})}
 INotifs(j) == LET s == Src(j) IN {N(10 * s + sent[s], SubCtx \cup {Mark(s, sent[s])}), E(s, SubCtx \cup {TMark(s)}), C(SubCtx \cup {TMark(s)})}
@@ -171,5 +173,5 @@ ConcatOneAtATime == Concat => Cardinality(LiveIn) <= 1
 CollectFirst == (Collecting /\ ost = "live" /\ ~closed) => LiveIn = {}
 TypeOK == blk \in 0..MaxInner /\ intro \in 0..MaxInner /\ (blk # 0 => ist[blk] = "live")
 
-EmitCase == Done => PrintT(ToJson([m |-> m, steps |-> h]))
+EmitCase == Done => PrintT(ToJson([m |-> m, steps |-> h, tail |-> tail]))
 =============================================================================
